@@ -157,6 +157,9 @@ def rule_c(ctx):
             if isinstance(v, ast.Subscript) and isinstance(v.value, ast.Name) and v.value.id in env:
                 val = env[v.value.id]
                 both = norm(v.slice) == mk
+            elif isinstance(v, ast.Subscript) and norm(v.slice) == mk and not isinstance(v.value, ast.Name):
+                val = v.value  # (expression)[mask]
+                both = True
             else:
                 # masked right-hand side: every occurrence of the input must be restricted by the same mask
                 val = v
